@@ -30,6 +30,7 @@ func checkC02(c *Check, a *Anchors) {
 	c02DeferredInsideExecution(c, a)
 	c02CommandRunSynchronous(c, a)
 	elementLiteralCarriesFields(c, a, "element-literal-carries-fields")
+	c02NoCommandForCallVars(c, a)
 }
 
 // c02CommandRunSynchronous: a cmds entry has "completely finished" when execext.RunCommand returns — which therefore must not
@@ -714,4 +715,75 @@ func extraThreaded(c *Check, a *Anchors) {
 		return true
 	})
 	c.Floor("extra-threaded", n, 7)
+}
+
+// c02NoCommandForCallVars: the dynamic variables of a task-call entry belong to the called task's compilation, which happens
+// when the entry is reached — not to the caller's, which happens before its first command.
+func c02NoCommandForCallVars(c *Check, a *Anchors) {
+	c.Rule("call-vars-evaluated-by-callee", "the function that runs the shell command of a dynamic variable (Compiler.HandleDynamicVar) is called only by the variable resolver's range function and, in the task compiler, for the task's own env (a variable ranged from Task.Env): a caller that evaluates the `sh:` variables of its task-call entries or dependencies while it is being compiled runs those commands before its dependencies and before the entries that precede the call")
+	hd := c.P.Func(PkgTask, "Compiler", "HandleDynamicVar")
+	if hd == nil {
+		c.Errorf("call-vars-evaluated-by-callee: Compiler.HandleDynamicVar not found")
+		return
+	}
+	resolverGroup := map[*FuncBody]bool{}
+	if a.GetVariables != nil {
+		for _, g := range c.P.groupOf(a.GetVariables, 2) {
+			resolverGroup[g] = true
+		}
+		// methods of a resolver object constructed in the resolver (see vars-write-order)
+		inspectBody(a.GetVariables.Body, func(nd ast.Node) bool {
+			if cl, ok := nd.(*ast.CompositeLit); ok {
+				if tv, ok := a.GetVariables.Info().Types[cl]; ok {
+					if named := namedOf(tv.Type); named != nil && named.Obj().Pkg() != nil && named.Obj().Pkg().Path() == PkgTask {
+						for _, m := range c.P.BodiesIn(PkgTask) {
+							if m.Decl != nil && m.Decl.Recv != nil && recvOf(m) == named.Obj().Name() {
+								resolverGroup[m] = true
+							}
+						}
+					}
+				}
+			}
+			return true
+		})
+	}
+	n := 0
+	ord := map[string]int{}
+	for _, fb := range c.P.Bodies() {
+		if !strings.HasPrefix(fb.Pkg.PkgPath, Mod) || bceSkipPkgs[fb.Pkg.PkgPath] {
+			continue
+		}
+		info := fb.Info()
+		pm := map[ast.Node]ast.Node(nil)
+		for _, call := range callsIn(fb, false) {
+			if !a.is(callee(info, call), hd) {
+				continue
+			}
+			n++
+			c.Fn(fb.Root())
+			okSite, why := false, ""
+			switch {
+			case resolverGroup[fb.Root()]:
+				okSite, why = true, "the variable resolver"
+			default:
+				// inside a loop over Task.Env of the task being compiled
+				if pm == nil {
+					pm = parentMap(fb.Body)
+				}
+				for p := pm[call]; p != nil; p = pm[p] {
+					if r, ok := p.(*ast.RangeStmt); ok {
+						ast.Inspect(r.X, func(m ast.Node) bool {
+							if sel, ok := m.(*ast.SelectorExpr); ok && fieldSel(info, sel, PkgAst, "Task", "Env") {
+								okSite, why = true, "the task's own env"
+							}
+							return true
+						})
+					}
+				}
+			}
+			c.Decide(okSite, "call-vars-evaluated-by-callee", ordinal(ord, "HandleDynamicVar@"+fnDisplay(fb.Root())), call.Pos(), "called for "+why,
+				"a shell command of a dynamic variable is run from "+fnDisplay(fb.Root())+", outside the variable resolver and the task's own env: if these are the `sh:` variables of task-call entries or dependencies, they run while the CALLER is compiled — before its dependencies and before the commands that precede the call — and the callee sees a value from before those ran")
+		}
+	}
+	c.Floor("call-vars-evaluated-by-callee", n, 2)
 }
